@@ -210,7 +210,9 @@ def run(ctx, rep):
         rep.check(ok, "R15.2", "R15.2|write_root", "write_stats serialises the collector itself in both formats", ws)
     cr = "fastpasta::controller::Controller::<C>::run"
     if cr in f.fns:
-        b = cg.body(cr)
+        # run() with the free helper functions of its module inlined (the file loading may live in an extracted helper)
+        from ..mir import Body, inline_fn
+        b = Body(inline_fn(f, cr, lambda c: c.startswith("fastpasta::controller::") and "Controller::<C>::" not in c, max_depth=3, max_blocks=3000))
         des = [(t, cal, c) for bb, t, cal, c in b.calls() if cal in ("serde_json::de::from_str", "toml::de::from_str")]
         ok = len(des) == 2 and all(any(g.get("adt") == ROOT for g in (c.get("ga") or [])) for t, cal, c in des)
         rep.check(ok, "R15.2", "R15.2|read_root", "the input statistics file is deserialised into StatsCollector in both formats", cr,
